@@ -16,7 +16,8 @@ ASSUMPTIONS = ["hashlib SHA-2 / SHAKE as the independent hash implementation", "
 EXHAUSTIVE = ["block-count boundaries ell = 0, 1, 2, 254, 255, 256 for both XMD hashes", "hash_to_field element counts at the XMD limit and limit+1 for Fq, Fr, Fq2"]
 MIN_EVALS = {"quick": 8000, "thorough": 200000}
 
-XS = ["sha256", "sha512", "shake128", "shake256"]
+XS = ["sha256", "sha512", "shake128", "shake256", "sha224", "sha384", "sha512_224", "sha512_256"]
+XMD_B = {"sha256": 32, "sha512": 64, "sha224": 28, "sha384": 48, "sha512_224": 28, "sha512_256": 32}
 MSG_LENS = [0, 1, 2, 31, 32, 33, 55, 56, 57, 63, 64, 65, 111, 112, 113, 119, 120, 127, 128, 129, 135, 136, 137, 167, 168, 169, 255, 256, 1000]
 DST_LENS = [0, 1, 16, 43, 254, 255]
 
@@ -44,7 +45,7 @@ def run_shard(shard, tier, seed, wd, res):
     rng = G.rng_for(seed, ID, x, part, shard["idx"])
     s = H.Script()
     q = tier == "quick"
-    b = {"sha256": 32, "sha512": 64}.get(x)
+    b = XMD_B.get(x)
     if part == "lengths":
         msg, dst = b"abc", b"QUUX-V01-CS02-with-expander"
         if b:
@@ -61,6 +62,14 @@ def run_shard(shard, tier, seed, wd, res):
         for ml in MSG_LENS + ([10240] if True else []):
             for dl in DST_LENS:
                 s.op("expand", V.s(x), V.b(rb(rng, ml)), V.b(rb(rng, dl)), V.n(rng.choice([32, 48, 64, 96, 128, 256])))
+        # identical (msg, tag, length) under every expander, back to back on one thread: the result depends on the
+        # expander as well (a memo keyed on the inputs alone would show here)
+        for _ in range(6):
+            m_, d_, cnt = rb(rng, rng.choice([0, 5, 64])), rb(rng, rng.choice([0, 8, 43])), rng.choice([1, 2])
+            for x2 in XS:
+                s.op("h2f", V.s(rng.choice(["fq", "fq2"]) if _ % 2 else "fq"), V.s(x2), V.b(m_), V.b(d_), V.n(cnt))
+            for x2 in XS:
+                s.op("expand", V.s(x2), V.b(m_), V.b(d_), V.n(64))
         for ml in (0, 1, 64, 128):
             s.op("expand", V.s(x), V.b(bytes(ml)), V.b(bytes(16)), V.n(128))
             s.op("expand", V.s(x), V.b(b"\xff" * ml), V.b(b"\xff" * 255), V.n(128))
@@ -115,7 +124,7 @@ def judge(ctx, rec, res):
     A = rec.args
     if rec.op == "expand":
         x = A[0][1]
-        b = {"sha256": 32, "sha512": 64}.get(x)
+        b = XMD_B.get(x)
         ml = len(A[1][1])
         key = (rec.op, x, lclass(A[3][1], b), "msg%d" % (ml if ml in MSG_LENS else -1), "dst%d" % (len(A[2][1]) if len(A[2][1]) in DST_LENS else -1), rec.status, ctx.build)
     elif rec.op == "h2f":
